@@ -414,6 +414,10 @@ class ProdParser:
             elif token[0] == self.types.S:
                 try:
                     next_ = next(tokens)
+                    # S tokens in a row (the tokenizer dropped a comment
+                    # between them) are one S
+                    while next_[0] == self.types.S:
+                        next_ = next(tokens)
                 except StopIteration:
                     yield token
                 else:
